@@ -131,6 +131,28 @@ func newWorld(rnd *rand.Rand, ipv uint8) *world {
 			cfg.FailsafeOutboundHostPorts = append(cfg.FailsafeOutboundHostPorts, p)
 		}
 	}
+	// the same protocol/port listed several times under different CIDRs ("tcp:10.0.0.0/24:22,tcp:192.168.0.0/16:22"):
+	// every network keeps its failsafe
+	if chance(rnd, 70) {
+		nets := []string{v46(ipv, "10.0.0.0/24", "fd00:a::/64"), v46(ipv, "192.168.0.0/16", "fd00:b::/48"), v46(ipv, "172.31.0.0/16", "fd00:c::/64")}
+		rnd.Shuffle(len(nets), func(i, j int) { nets[i], nets[j] = nets[j], nets[i] })
+		k := 2 + rnd.Intn(2)
+		for _, n := range nets[:k] {
+			cfg.FailsafeInboundHostPorts = append(cfg.FailsafeInboundHostPorts, config.ProtoPort{Protocol: "tcp", Port: 2222, Net: n})
+		}
+		if chance(rnd, 50) {
+			// ... also next to an entry of the other family and an unrestricted one for another port
+			cfg.FailsafeInboundHostPorts = append(cfg.FailsafeInboundHostPorts, config.ProtoPort{Protocol: "tcp", Port: 2222, Net: v46(ipv, "fd00:d::/64", "10.9.0.0/16")})
+		}
+	}
+	if chance(rnd, 70) {
+		nets := []string{v46(ipv, "10.96.0.10/32", "fd00:96::a/128"), v46(ipv, "172.20.0.0/14", "fd00:20::/32"), v46(ipv, "192.0.2.0/24", "2001:db8:1::/48")}
+		rnd.Shuffle(len(nets), func(i, j int) { nets[i], nets[j] = nets[j], nets[i] })
+		k := 2 + rnd.Intn(2)
+		for _, n := range nets[:k] {
+			cfg.FailsafeOutboundHostPorts = append(cfg.FailsafeOutboundHostPorts, config.ProtoPort{Protocol: "udp", Port: 5353, Net: n})
+		}
+	}
 	if ipv == 4 {
 		cfg.IPIPEnabled = chance(rnd, 50)
 		cfg.VXLANEnabled = chance(rnd, 50)
